@@ -82,7 +82,7 @@ func (p *Project) SourceFiles() map[string]string {
 		out["auth/"+e+"/auth.go"] = p.authSrc(e)
 	}
 	for _, x := range p.Extensions {
-		out["ext/"+x+".hbs"] = "// sim extension " + x + "\n"
+		out["ext/"+x+".hbs"] = fmt.Sprintf("// sim extension %s of project %d rev %q\n", x, p.Seed, p.ExtRev)
 	}
 	type fileAcc struct {
 		pkg     string
